@@ -281,6 +281,25 @@ HasOp(g, ops) ==
        [] o \in {"withctx", "mapctx"} -> HasOp(g[3], ops)
        [] o = "pratt" -> HasOp(g[2], ops)
 
+(* the memoized sub-grammars of g (C11: the identities the memo table should distinguish) *)
+RECURSIVE MemoSub(_)
+RECURSIVE MemoSubSeq(_)
+MemoSubSeq(s) == IF s = <<>> THEN {} ELSE MemoSub(Head(s)) \cup MemoSubSeq(Tail(s))
+MemoSub(g) ==
+  LET o == Op(g) IN
+  (IF o = "memo" THEN {g} ELSE {}) \cup
+  CASE o \in {"just", "any", "oneof", "noneof", "sel", "end", "empty", "cust", "probe", "cfgjust", "cfgjustr", "ref", "var", "tree", "anyr", "selr", "newline"} -> {}
+    [] o = "text" -> MemoSub(g[4])
+    [] o \in {"sleq", "tpadded"} -> MemoSub(g[2])
+    [] o \in {"then", "ithen", "theni", "or", "andis", "thenctx", "ignctx", "nested", "padded", "let", "sep", "foldl", "foldr", "foldlw", "foldrw",
+              "recover", "skipuntil", "retry"} -> MemoSub(g[2]) \cup MemoSub(g[3])
+    [] o = "delim" -> MemoSub(g[2]) \cup MemoSub(g[3]) \cup MemoSub(g[4])
+    [] o \in {"group", "grouparr", "choice", "choicev"} -> MemoSubSeq(g[2])
+    [] o \in {"withctx", "mapctx"} -> MemoSub(g[3])
+    [] o = "nesteddelim" -> MemoSub(g[5])
+    [] o = "pratt" -> MemoSub(g[2])
+    [] OTHER -> MemoSub(g[2])
+
 RECURSIVE Size(_)
 RECURSIVE SizeSeq(_)
 SizeSeq(s) == IF s = <<>> THEN 0 ELSE Size(Head(s)) + SizeSeq(Tail(s))
